@@ -151,12 +151,16 @@ let rec rename_ty (f : n list -> n list) (t : ty) : ty =
 (* ---------- C05 ---------- *)
 let c05 op a =
   match op, a with
-  | ("c05.sub" | "c05.sub_warn" | "c05.checkall"), [e; x; y] -> b01 (sub_dec (env_of e) (ty_of (parse_sx x)) (ty_of (parse_sx y)))
+  | ("c05.sub" | "c05.sub_warn" | "c05.checkall"), [e; x; y] ->
+      let env = env_of e and x = ty_of (parse_sx x) and y = ty_of (parse_sx y) in
+      let r = sub_dec_fast env x y in
+      (* both procedures are proved to decide Sub; evaluating both here is a consistency check of the extraction *)
+      if op = "c05.sub" && r <> sub_dec env x y then "(model-inconsistent)" else b01 r
   | "c05.equal", [e; x; y] -> b01 (eq_dec (env_of e) (ty_of (parse_sx x)) (ty_of (parse_sx y)))
   | ("c05.seq" | "c05.seq_equal" | "c05.seq_checkall"), [e; qs] ->
       let env = env_of e in
       String.concat "" (List.map (fun q -> match q with
-        | L [x; y] -> b01 ((if op = "c05.seq_equal" then eq_dec else sub_dec) env (ty_of x) (ty_of y))
+        | L [x; y] -> b01 ((if op = "c05.seq_equal" then eq_dec else sub_dec_fast) env (ty_of x) (ty_of y))
         | _ -> failwith "query") (items (parse_sx qs)))
   | ("c05.compat" | "c05.compat_report" | "c05.service_equal"), [e1; a1; e2; a2] ->
       (* merge_type: the second environment's names are made disjoint from the first one's *)
@@ -164,7 +168,7 @@ let c05 op a =
       let env2 = List.map (fun (x, t) -> (f x, rename_ty f t)) (env_of e2) in
       let env = env_of e1 @ env2 in
       let t1 = ty_of (parse_sx a1) and t2 = rename_ty f (ty_of (parse_sx a2)) in
-      b01 ((if op = "c05.service_equal" then eq_dec else sub_dec) env t1 t2)
+      b01 ((if op = "c05.service_equal" then eq_dec else sub_dec_fast) env t1 t2)
   | _ -> "(unknown-op " ^ op ^ ")"
 
 (* ---------- C09 ---------- *)
@@ -258,10 +262,89 @@ let c16 op a =
       (match try_from_slice (unhex h) with Inl bs -> "(ok " ^ hex bs ^ ")" | Inr _ -> "(err)")
   | _ -> "(unknown-op " ^ op ^ ")"
 
+
+(* ---------- values ---------- *)
+let rec sx_of_ty (t : ty) : string =
+  let l ts = String.concat " " (List.map sx_of_ty ts) in
+  match t with
+  | TPrim p -> (match p with
+      | PNull -> "null" | PBool -> "bool" | PNat -> "nat" | PInt -> "int" | PNat8 -> "nat8" | PNat16 -> "nat16"
+      | PNat32 -> "nat32" | PNat64 -> "nat64" | PInt8 -> "int8" | PInt16 -> "int16" | PInt32 -> "int32" | PInt64 -> "int64"
+      | PFloat32 -> "float32" | PFloat64 -> "float64" | PText -> "text" | PReserved -> "reserved" | PEmpty -> "empty"
+      | PPrincipal -> "principal")
+  | TVar x -> "(var " ^ hex x ^ ")"
+  | TOpt t -> "(opt " ^ sx_of_ty t ^ ")"
+  | TVec t -> "(vec " ^ sx_of_ty t ^ ")"
+  | TRec fs -> "(rec" ^ String.concat "" (List.map (fun (i, t) -> " (" ^ string_of_n i ^ " " ^ sx_of_ty t ^ ")") fs) ^ ")"
+  | TVariant fs -> "(variant" ^ String.concat "" (List.map (fun (i, t) -> " (" ^ string_of_n i ^ " " ^ sx_of_ty t ^ ")") fs) ^ ")"
+  | TFunc (a, r, m) -> "(func (" ^ l a ^ ") (" ^ l r ^ ") (" ^ String.concat " " (List.map string_of_n m) ^ "))"
+  | TServ ms -> "(serv" ^ String.concat "" (List.map (fun (i, t) -> " (" ^ hex i ^ " " ^ sx_of_ty t ^ ")") ms) ^ ")"
+  | TClass (a, t) -> "(class (" ^ l a ^ ") " ^ sx_of_ty t ^ ")"
+  | TFuture -> "future"
+let rec sx_of_val (v : val0) : string =
+  match v with
+  | VNull -> "null" | VReserved -> "reserved"
+  | VBool b -> "(bool " ^ b01 b ^ ")"
+  | VNat n -> "(nat " ^ string_of_n n ^ ")"
+  | VInt z -> "(int " ^ string_of_cz z ^ ")"
+  | VNatN (b, n) -> "(n" ^ string_of_n b ^ " " ^ string_of_n n ^ ")"
+  | VIntN (b, z) -> "(i" ^ string_of_n b ^ " " ^ string_of_cz z ^ ")"
+  | VFloat (b, x) -> "(f" ^ string_of_n b ^ " " ^ string_of_n x ^ ")"
+  | VText bs -> "(text " ^ hex bs ^ ")"
+  | VOpt None -> "none"
+  | VOpt (Some w) -> "(some " ^ sx_of_val w ^ ")"
+  | VVec vs -> "(vec" ^ String.concat "" (List.map (fun w -> " " ^ sx_of_val w) vs) ^ ")"
+  | VRec fs -> "(rec" ^ String.concat "" (List.map (fun (i, w) -> " (" ^ string_of_n i ^ " " ^ sx_of_val w ^ ")") fs) ^ ")"
+  | VVariant (i, w) -> "(variant " ^ string_of_n i ^ " " ^ sx_of_val w ^ ")"
+  | VPrincipal b -> "(principal " ^ hex b ^ ")"
+  | VService b -> "(service " ^ hex b ^ ")"
+  | VFunc (b, m) -> "(func " ^ hex b ^ " " ^ hex m ^ ")"
+let rec val_of (s : sx) : val0 =
+  match s with
+  | A "null" -> VNull | A "reserved" -> VReserved | A "none" -> VOpt None
+  | A a -> failwith ("val atom " ^ a)
+  | L _ ->
+    (match head s, args s with
+     | "bool", [x] -> VBool (atom x = "1")
+     | "nat", [x] -> VNat (n_of_string (atom x))
+     | "int", [x] -> VInt (z_of_string (atom x))
+     | ("n8" | "n16" | "n32" | "n64"), [x] -> VNatN (n_of_string (String.sub (head s) 1 (String.length (head s) - 1)), n_of_string (atom x))
+     | ("i8" | "i16" | "i32" | "i64"), [x] -> VIntN (n_of_string (String.sub (head s) 1 (String.length (head s) - 1)), z_of_string (atom x))
+     | "f32", [x] -> VFloat (n_of_int 32, n_of_string (atom x))
+     | "f64", [x] -> VFloat (n_of_int 64, n_of_string (atom x))
+     | "text", [x] -> VText (unhex (atom x))
+     | "some", [x] -> VOpt (Some (val_of x))
+     | "vec", xs -> VVec (List.map val_of xs)
+     | "rec", fs -> VRec (List.map (fun f -> match f with L [i; x] -> (n_of_string (atom i), val_of x) | _ -> failwith "field") fs)
+     | "variant", [i; x] -> VVariant (n_of_string (atom i), val_of x)
+     | "principal", [x] -> VPrincipal (unhex (atom x))
+     | "service", [x] -> VService (unhex (atom x))
+     | "func", [x; m] -> VFunc (unhex (atom x), unhex (atom m))
+     | h, _ -> failwith ("val head " ^ h))
+let show_vals (vs : val0 list) = if vs = [] then "(ok)" else "(ok " ^ String.concat " " (List.map sx_of_val vs) ^ ")"
+let sx_of_env (e : (n list * ty) list) = "(" ^ String.concat " " (List.map (fun (x, t) -> "(" ^ hex x ^ " " ^ sx_of_ty t ^ ")") e) ^ ")"
+let tys_of (s : string) : ty list = List.map ty_of (items (parse_sx s))
+
+(* ---------- C02 ---------- *)
+let c02 op a =
+  match op, a with
+  | "c02.decode", [e; ts; h] ->
+      (match spec_decode (env_of e) (tys_of ts) (unhex h) with
+       | Ok vs -> show_vals vs | Err _ -> "(err)" | Panic -> "(panic)" | OutOfFuel -> "(skip)")
+  | "c02.decode_untyped", [h] ->
+      (match spec_decode_untyped (unhex h) with
+       | Ok ((_, _), vs) -> show_vals vs | Err _ -> "(err)" | Panic -> "(panic)" | OutOfFuel -> "(skip)")
+  | "c02.header", [h] ->
+      (match dec_header (n_of_int 10000) (unhex h) with
+       | Ok ((e, ts), rest) -> Printf.sprintf "(ok %s (%s) %d)" (sx_of_env e) (String.concat " " (List.map sx_of_ty ts)) (List.length rest)
+       | Err _ -> "(err)" | Panic -> "(panic)" | OutOfFuel -> "(skip)")
+  | _ -> "(unknown-op " ^ op ^ ")"
+
 let dispatch (op : string) (a : string list) : string =
   let base = if String.length op > 2 && String.sub op 0 2 = "m." then String.sub op 2 (String.length op - 2) else op in
   let prop = try String.sub base 0 (String.index base '.') with Not_found -> base in
   match prop with
+  | "c02" -> c02 op a
   | "c05" -> c05 op a
   | "c09" -> c09 op a
   | "c15" -> c15 op a
@@ -278,7 +361,7 @@ let () =
             let r = (try dispatch op a with
                      | Stack_overflow -> "(model-stack-overflow)"
                      | e -> "(model-exception " ^ Printexc.to_string e ^ ")") in
-            print_string id; print_char '\t'; print_string r; print_char '\n'
+            print_string id; print_char '\t'; print_string r; print_char '\n'; flush stdout
         | _ -> ()
       end
     done
